@@ -540,7 +540,8 @@ class SymRatio:
         raise Inconclusive("hash of a symbolic float")
 
     def __format__(self, spec):
-        raise Inconclusive("formatting a symbolic float")
+        format(1.5, spec)          # an invalid spec still raises, as it would on a real float
+        return "<float>"
 
     def __repr__(self):
         return f"SymRatio({self.n}/{self.c})"
@@ -656,7 +657,8 @@ class SymFloat:
         return f"SymFloat({self.t})"
 
     def __format__(self, spec):
-        raise Inconclusive("formatting a symbolic float")
+        format(1.5, spec)
+        return "<float>"
 
 
 # ----------------------------------------------------------------------------
@@ -1395,6 +1397,27 @@ class SymFmt:
 def fstr(parts):
     """f-string / str.format replacement.  parts: str | (value, conv, spec)."""
     if not any(isinstance(p, tuple) and (is_sym(p[0]) or is_sym(p[2])) for p in parts):
+        if active():
+            # an object whose __str__/__repr__ itself yields a formatted symbolic string
+            res = []
+            for p in parts:
+                if isinstance(p, str):
+                    res.append(p)
+                    continue
+                v, conv, spec = p
+                if spec == "" and not isinstance(v, (str, bytes, int, float, bool, type(None), list, tuple, dict)):
+                    try:
+                        r = v.__repr__() if conv == "r" else (v.__str__() if conv in (None, "s") else None)
+                    except TypeError:
+                        r = None
+                    if isinstance(r, SymFmt):
+                        res.extend(r.parts)
+                        continue
+                    if isinstance(r, str):
+                        res.append(r)
+                        continue
+                res.append(_fmt1(v, conv, spec))
+            return SymFmt(res).norm()
         return "".join(p if isinstance(p, str) else _fmt1(*p) for p in parts)
     out = []
     for p in parts:
@@ -1427,8 +1450,8 @@ def _concrete_value(v):
         return v.concrete()
     if isinstance(v, SymFmt):
         return str(v)
-    if isinstance(v, SymFloat):
-        raise Inconclusive("rendering a symbolic float")
+    if isinstance(v, (SymFloat, SymRatio)):
+        return v          # rendered as an opaque placeholder by __format__
     return v
 
 
